@@ -161,6 +161,8 @@ func gen(g *vh.Gen) {
 	g.Emit("stls", "o0:P,t0,k,p0:dele,f0,DP")
 	g.Emit("stls", "o0:P,p0:user,k,DP,t0,p0:pass,b0:300,f0,DP")
 	g.Emit("stls", "o0:P,o1:S,p1:data,k,t0,f1,p0:dele,f0,DP,DS")
+	// as coded the TLS state is the SERVER's: the second session's STLS is refused, it goes on in plain text
+	g.Emit("stls", "o0:P,o1:P,k,t0,t1,p0:dele,p1:dele,f0,f1,DP")
 	// POP3 in ForceTLS mode: plain-text clients are dropped without leaking a session count
 	g.Emit("tls", "xP,o0:P,p0:pass,k,DP,f0,DP")
 	g.Emit("tls", "o0:P,p0:dele,xP,xP,k,nP,DP,f0,DP,DS")
